@@ -144,12 +144,17 @@ func corrC07(out string, seed uint64, tier string, replay string) *report {
 	// ---- part 4 (run first): concurrent registrations of different prefixes; concurrent dispatch calls each reach the handler ----
 	{
 		crypt.VerifResetRegistry()
-		G, each := 8, 60
+		G, each := 8, 150
 		if tier == "thorough" {
 			G, each = 16, 400
 		}
 		var hits sync.Map
 		var wg sync.WaitGroup
+		// a registry that already holds a few thousand entries (copying or rehashing it takes time: the window in which
+		// a concurrent registration can be lost is wide)
+		for k := 0; k < 3000; k++ {
+			crypt.RegisterHash(fmt.Sprintf("$pre%d$", k), func(h, p string) error { return nil })
+		}
 		for g := 0; g < G; g++ {
 			wg.Add(1)
 			go func(g int) {
